@@ -258,6 +258,27 @@ def _computed(rep, le, comp, file):
                 except NotConstant as e:
                     raise Undecided(f"datetime lambda outside the evaluable subset: {e}")
                 n += 1
+                if isinstance(got, Sym) and got[1] != "datetime.datetime":
+                    # built by date-time arithmetic (datetime + timedelta ...): the constructors are pure library functions, so the expression is
+                    # evaluated with them on this cell's concrete fields and compared as an instant
+                    import datetime as _dt
+                    try:
+                        real = _realize(got)
+                    except (ValueError, OverflowError, TypeError) as ex_:
+                        if bad < 3:
+                            bad += 1
+                            rep.violation("R4", "cosem.DateTime", "computed:raises", f"building the datetime raises {type(ex_).__name__} for a valid transmitted date-time", file, comp.line,
+                                          witness=f"hundredths={hund} deviation={dev} daylight_flag={dst}: {ex_}")
+                        continue
+                    except NotConstant as ex_:
+                        raise Undecided(f"datetime lambda does not build a datetime.datetime ({ex_})")
+                    want_real = _dt.datetime(2021, 7, 15, 13, 37, 58, 0 if hund is None else hund * 10000, tzinfo=None if dev is None else _dt.timezone(_dt.timedelta(minutes=-dev)))
+                    same = isinstance(real, _dt.datetime) and (real.tzinfo is None) == (want_real.tzinfo is None) and real == want_real and real.utcoffset() == want_real.utcoffset()
+                    if not same and bad < 3:
+                        bad += 1
+                        rep.violation("R4", "cosem.DateTime", "computed:instant", "the decoded datetime differs from the transmitted instant", file, comp.line,
+                                      witness=f"hundredths={hund} deviation={dev} daylight_flag={dst}: {real!r} expected {want_real!r}")
+                    continue
                 if not (isinstance(got, Sym) and got[1] == "datetime.datetime"):
                     raise Undecided("datetime lambda does not build a datetime.datetime")
                 args = list(got[2])
@@ -293,6 +314,24 @@ def _computed(rep, le, comp, file):
     rep.count("computed_cells", n)
     if not bad:
         rep.ok("R4", "computed datetime", f"{n} value-class cells: arguments are (year, month, day_of_month, hour, minute, second, hundredths*10000 or 0, timezone(timedelta(minutes=-deviation)) or None), independent of the clock status")
+
+
+def _realize(v):
+    """a symbolic record of calls to datetime constructors / date-time arithmetic, evaluated with the library itself"""
+    import datetime as _dt
+    if isinstance(v, Sym):
+        name, args, kw = v[1], [_realize(a) for a in v[2]], {k: _realize(x) for k, x in v[3]}
+        table = {"datetime.datetime": _dt.datetime, "datetime.timezone": _dt.timezone, "datetime.timedelta": _dt.timedelta, "datetime.date": _dt.date, "datetime.time": _dt.time}
+        if name in table:
+            return table[name](*args, **kw)
+        if name == "datetime.timezone.utc":
+            return _dt.timezone.utc
+        if name in ("op:Add", "op:Sub") and len(args) == 2:
+            return args[0] + args[1] if name == "op:Add" else args[0] - args[1]
+        raise NotConstant(f"no library summary for {name}")
+    if isinstance(v, (int, float, str, type(None), bool)):
+        return v
+    raise NotConstant(f"value {v!r} in a date-time expression")
 
 
 def _routes(rep, w, dt, src):
